@@ -377,6 +377,8 @@ def cells(prop, tier):
     for pr in range(6):
         if prop == 'C05' and pr > 1 and tier != 'thorough':
             continue
+        if prop == 'C06' and pr not in (0, 3) and tier != 'thorough':
+            continue
         out.append(Cell(name='%s_3t_takeover_prio%d' % (lp, pr), sig='lifeA: int, p1: int, q1: int',
                         pre=['0 <= lifeA <= 1 and 0 <= p1 <= 70 and 0 <= q1 <= 1'],
                         body='H.scen(%r, 1, 1, 2, 3, lifeA, 0, %d, p1, q1, 3, 1)' % (prop, pr),
@@ -402,7 +404,7 @@ def cells(prop, tier):
             out.append(Cell(name='%s_3t_double_takeover_prio%d' % (lp, pr), sig='lifeA: int, p1: int, q1: int',
                             pre=['1 <= lifeA <= 2 and 0 <= p1 <= 90 and 0 <= q1 <= 1'],
                             body='H.scen(%r, 1, 1, 1, 3, lifeA, 0, %d, p1, q1, 3, 1)' % (prop, pr),
-                            tier=q, timeout=900, family=lp, weight=5))
+                            tier=q if pr == 0 else 'thorough', timeout=900, family=lp, weight=6))
     if prop in ('C06', 'C05'):
         # two callers on the computing loop (the second parked on the computation's event) while that loop stops / closes mid-computation
         for life in range(3):
